@@ -104,7 +104,7 @@ prop("C12", coq_deps=AUTHZ_DEPS + ["DatalogProofs.v", "OrderProofs.v"],
 prop("C11", coq_deps=AUTHZ_DEPS + ["DatalogProofs.v", "ChanLTS.v", "ChanLTSProofs.v"],
      theorems=["C11_ok_is_fixpoint", "C11_max_facts_error", "C11_max_iterations_error", "C11_error_cases",
                "C11_authorize_fails_on_limit", "C11_limits_survive", "C11_no_stranded", "C11_no_blocked_forever",
-               "C11_no_infinite_run", "C11_old_protocol_strands"],
+               "C11_no_infinite_run", "C11_old_protocol_strands", "C11_channel_protocol_pinned"],
      level_text="PARTIAL proof: limits / no silent truncation / authorization fails on a limit are theorems about the Datalog and "
                 "authorizer models; 'no stranded goroutine' is a theorem about a transition system of the Run/Apply/combine channel "
                 "protocol for arbitrarily many rule applications and combinations under every schedule; that the options reach the "
@@ -112,7 +112,8 @@ prop("C11", coq_deps=AUTHZ_DEPS + ["DatalogProofs.v", "ChanLTS.v", "ChanLTSProof
                 "the harness (limits-in-force accessor, goroutine census, timeout ordering), not proved",
      trusted=AUTHZ_TRUSTED + ["ChanLTS.v is a hand-written abstraction of the synchronisation skeleton of datalog.go (buffered done, ctx, "
                                "unbuffered combination channel, stop channel); data is abstracted to counters and nondeterministic choice; "
-                               "it is tied to the code by the goroutine census of the harness, not by a translator",
+                               "it is tied to the code by a regenerated table of channel creations and send statements (pinned: buffered done, every send on "
+                               "the combination channel inside a select with the stop case) and by the goroutine census of the harness",
                                "Go scheduler, context timers and goroutine reclamation are outside the model (runtime remainder)"],
      assumptions=["no program of this Datalog dialect diverges (heads only take body-bound variables): limits cut large finite models"],
      harness_timeout=900)
@@ -132,3 +133,20 @@ prop("C10", coq_deps=WIRE_DEPS,
               "ed25519 as Section variables; Go's regexp/fmt/time not modelled",
               "printing (String/Code) totality is stated in C15"],
      assumptions=["root key is 32 bytes (property text)"])
+
+prop("C19", coq_deps=["Base.v", "Footprint.v", "FootprintProofs.v", "TableProofs.v", "Generated.v"],
+     theorems=["C19_interleave_readonly", "C19_footprints", "C19_schedules", "C19_old_code_refuted",
+               "C19_no_write_through_the_shared_token"],
+     level_text="PARTIAL proof: a generic theorem over ALL schedules of any number of threads on a shared heap (threads that write only "
+                "what they allocated cannot race and get their solo results), instantiated with footprint programs of the listed token "
+                "operations over arbitrary token layouts and spare capacities; the footprints are tied to the code by a regenerated table "
+                "of writes through the shared token (pinned empty) and by a -race stress run; the Go memory model, scheduler, participle "
+                "and protobuf-go internals are not modelled",
+     trusted=["Model/Footprint.v footprint programs are hand-written abstractions of biscuit.go authorizerFor/Append/Seal/GetBlockID/"
+              "CreateBlock/Serialize/String, authorizer.go Authorize, datalog/symbol.go Clone",
+              "translator: shared_write_sites is a syntactic may-write analysis (assign / inc-dec / append-into / copy-into / mutating "
+              "method call on an expression rooted at the *Biscuit receiver or at v.biscuit); writes through aliases held in locals are "
+              "covered only by the race detector",
+              "Go race detector (dynamic, the schedules it happens to see)"],
+     assumptions=["each goroutine uses its own authorizer (property text)"],
+     harness_timeout=1500)
